@@ -21,7 +21,8 @@ THEOREMS = ["C05_serial_query_bytes", "C05_reset_query_bytes", "C05_query_choice
             "C05_frame_receive_and_store", "C05_frame_step", "C05_frame_stop", "C05_frame_purge", "C05_frame",
             "C05_frame_next_query", "C05_reset_cause_cache_reset", "C05_reset_cause_no_incr_state", "C05_reset_cause_no_data",
             "C05_reset_cause_no_data_state", "C05_reset_cause_expiry", "C05_reset_cause_stop",
-            "C05_foreign_session_cache_response", "C05_foreign_session_eod"]
+            "C05_foreign_session_cache_response", "C05_foreign_session_eod",
+            "C05_cache_response_translated", "C05_sync_translated", "C05_fsm_step_translated"]
 
 FAULTS = ["cr_session", "eod_session", "spurious_reset", "err_nodata", "stop", "cr_session", "eod_session", "spurious_reset",
           "err_nodata", "trunc_err", "close_now", "timeout", "err_unsupported_ver", "dup_announce", "err_other"]
@@ -144,6 +145,16 @@ def session_scripts(rnd):
                 s.data(delta(s, S, 9, add=it[4:5])); s.wait(31)
                 meta_ = {"kind": "session", "name": s._name, "ver": ver, "expire_eff": big}
                 out.append((["# expire_eff %d" % big] + s.lines(), meta_))
+        # the Reset Query that follows a Cache Reset / a no-data error cannot be sent (transport write fails or takes only a few
+        # bytes and then fails): the session is forgotten all the same - after the reconnect a Reset Query, never Serial (S, N)
+        for cause in ("cache-reset", "no-data"):
+            for sends in ([100, 100, "e1"], [100, 100, 3, "e1"], [100, 100, 8, "e1"], [12, 12, "e1", 100, "e1"]):
+                s = mk("reset-query-send-fails", ver, refresh=30, expire=7200, retry=rnd.choice([1, 5]), sends=list(sends))
+                s.data(full(s, S, 2 ** 32 - 1, it[:3])); s.wait(31)
+                s.data(rtrsim.cache_reset(ver) if cause == "cache-reset" else rtrsim.error_pdu(ver, 2, b"", b"no data"))
+                s.data(full(s, S, 0, it[:4])); s.wait(31)
+                s.data(delta(s, S, 1, add=it[4:5])); s.wait(31)
+                done(s, cause=cause, sends=[str(x) for x in sends])
         # expiry while waiting in the no-data retry sleep (records purged after the sleep)
         s = mk("expiry-in-no-data", ver, refresh=30, expire=600, retry=700)
         s.data(full(s, S, 7, it[:3])); s.wait(31)
